@@ -1209,6 +1209,8 @@ pub fn run_c14(ctx: &mut Ctx) {
             ("dot.pyxis", "pub type Dot { pub a: u32, }"),
             ("dot.x.pyxis", "pub type DotX { pub a: u64, }"),
             ("dot.rs.pyxis", "pub type DotRs { pub a: u16, }"),
+            // several sections in ONE backend block: each complete, in source order
+            ("multi.pyxis", "backend rust {\n    prologue \"pub const FIRST_P: u32 = 1;\";\n    prologue \"pub const SECOND_P: u32 = 2;\";\n    epilogue \"pub const FIRST_E: u32 = 1;\";\n    epilogue \"pub const SECOND_E: u32 = 2;\";\n}\nbackend rust prologue \"pub const THIRD_P: u32 = 3;\";\npub type Multi { pub a: u32, }"),
         ];
         let mut want: Vec<String> = tree.iter().map(|(rel, _)| format!("{}.rs", rel.trim_end_matches(".pyxis"))).collect();
         want.sort();
@@ -1240,7 +1242,14 @@ pub fn run_c14(ctx: &mut Ctx) {
             let mut got: Vec<String> = crate::drive::read_tree(&scratch.path.join("out")).keys().cloned().collect();
             got.sort();
             if got != want {
-                ctx.violation("C14/output-listing/relative-input-directory", &format!("input directory spelt `{spelt}`: expected files {want:?}, written {got:?}"), case);
+                ctx.violation("C14/output-listing/relative-input-directory", &format!("input directory spelt `{spelt}`: expected files {want:?}, written {got:?}"), case.clone());
+            }
+            if let Some(text) = crate::drive::read_tree(&scratch.path.join("out")).get("multi.rs") {
+                let pos: Vec<Option<usize>> = ["FIRST_P", "SECOND_P", "THIRD_P", "struct Multi", "FIRST_E", "SECOND_E"].iter().map(|n| text.find(n)).collect();
+                let in_order = pos.iter().all(|p| p.is_some()) && pos.windows(2).all(|w| w[0] < w[1]);
+                if !in_order {
+                    ctx.violation("C14/sections-of-one-backend-block", &format!("positions of FIRST_P, SECOND_P, THIRD_P, struct Multi, FIRST_E, SECOND_E in multi.rs: {pos:?} (each must be present, in this order)"), case);
+                }
             }
         }
     }
